@@ -182,3 +182,31 @@ Definition C17_ntimed_ok (ops : list nop) (within : list bool) (obs : list Z) (s
   C17_ntimed_steps_ok (do_samples ops) (since_counts 0 0 ops) within obs
   && list_eqb Z.eqb starts (reset_points 0 0 ops)
   && list_eqb Z.eqb fresh obs.
+
+(* ---- service wiring: one filter per client ----
+   C17's reset and warm-up clauses speak about ONE filter instance and its own sample
+   stream (C17_ntimed_reset_fresh: what follows a Reset of that instance depends only on
+   what that instance sees afterwards).  The service must therefore give every NTP
+   client (one per IP reference clock, seven path clients per SCION clock or peer) a
+   filter of its own.  Observation of createClocks for a configuration with the
+   reference clocks kinds (0 = IP, 1 = SCION, in configuration order) and npeer SCION
+   peers: whether it completed, the number of clients of every clock, per client
+   whether its Filter is a *client.NtimedFilter, and per client the identity of its
+   filter (pointers numbered in order of first appearance, -1 = no filter). *)
+Definition svc_counts (kinds : list Z) (npeer : nat) : list Z :=
+  map (fun k => if k =? 0 then 1 else 7) kinds ++ repeat 7 npeer.
+Fixpoint zsum (l : list Z) : Z := match l with [] => 0 | x :: r => x + zsum r end.
+Fixpoint znodup (l : list Z) : bool :=
+  match l with [] => true | x :: r => negb (existsb (Z.eqb x) r) && znodup r end.
+Fixpoint ziota (a : Z) (n : nat) : list Z := match n with O => [] | S m => a :: ziota (a + 1) m end.
+
+Definition C17_filters_ok (kinds : list Z) (npeer : nat) (ok : bool) (counts types ids : list Z) : bool :=
+  let total := Z.to_nat (zsum (svc_counts kinds npeer)) in
+  ok && list_eqb Z.eqb counts (svc_counts kinds npeer)
+  && Nat.eqb (length types) total && forallb (fun t => t =? 1) types
+  && Nat.eqb (length ids) total && forallb (fun i => 0 <=? i) ids && znodup ids.
+
+(* what a correct wiring shows *)
+Definition svc_expected (kinds : list Z) (npeer : nat) : list Z * list Z * list Z :=
+  let total := Z.to_nat (zsum (svc_counts kinds npeer)) in
+  (svc_counts kinds npeer, repeat 1 total, ziota 0 total).
